@@ -268,12 +268,16 @@ TABLE['C09'] = dict(
     ])
 
 TABLE['C10'] = dict(
-    imports=[A + 'MeanIncrement', A + 'Glue', A + 'ApiThm'],
+    imports=[A + 'MeanIncrement', A + 'Glue', A + 'ApiThm', A + 'WindowVar'],
     summary='Proved: redundant boundaries merge (E_add), the sweep over any grid equals direct evaluation (so refinement and the '
             'three end-time routes agree), durations of a direct evaluation are non-negative and sum to t, raw accumulation of '
             'non-negative rewards is non-decreasing, the horizon search either reaches p_absorption or must warn. '
             'Partial: the threshold 1 - 1e-15 itself is numeric.',
     theorems=[
+        ('window_var_curve_difference', 'PG.Api.propVar_curve_difference', 'the cached property var of a windowed distribution is the difference of the CENTRED second-order accumulation curve at the two ends of the window'),
+        ('window_var_shortcut_gap', 'PG.Api.shortcutVar_sub_propVar', 'm2 - mean**2 (a seeded change, twice) differs from it by 2 m1(start) (m1(end) - m1(start))'),
+        ('window_var_shortcut_iff', 'PG.Api.shortcut_eq_var_iff', 'and agrees exactly when m1(start) = 0 or m1(end) = m1(start)'),
+        ('window_var_shortcut_counterexample', 'PG.Api.var_shortcut_differs', 'kernel-checked instance: var 63, shortcut 77 on the window [1/2, 4]'),
         ('additive_windows', 'PG.accum_increment', 'first moments are additive over adjacent windows: the increment over [a,b] is a function of the distribution at a'),
         ('redundant_boundary', 'PG.redundant_boundary', 'E(s V) E(t V) = E((s+t) V)'),
         ('zero_duration', 'PG.evalFactors_zero_duration', 'a zero-length piece contributes the identity'),
